@@ -115,6 +115,41 @@ impl Sut {
         }
     }
 
+    /// One iterator, stepped through `script`; whatever is left is drained at the end.
+    pub fn iter_stepped(&mut self, script: &[crate::ops::IterStep], clock: &VerifClock) -> Vec<Option<(u16, u32)>> {
+        use crate::ops::IterStep;
+        let mut out = Vec::new();
+        match self {
+            Sut::Unsync(c) => {
+                let mut it = c.iter().map(|(k, v)| (k.k, v.id));
+                for s in script {
+                    match s {
+                        IterStep::Next => out.push(it.next()),
+                        IterStep::Advance { ns } => clock.advance(std::time::Duration::from_nanos(*ns)),
+                        IterStep::InvalidateAll => {} // needs &mut: not expressible while iterating
+                    }
+                }
+                for p in it {
+                    out.push(Some(p));
+                }
+            }
+            Sut::Sync(c) => {
+                let mut it = c.iter().map(|e| (e.key().k, e.value().id));
+                for s in script {
+                    match s {
+                        IterStep::Next => out.push(it.next()),
+                        IterStep::Advance { ns } => clock.advance(std::time::Duration::from_nanos(*ns)),
+                        IterStep::InvalidateAll => c.invalidate_all(),
+                    }
+                }
+                for p in it {
+                    out.push(Some(p));
+                }
+            }
+        }
+        out
+    }
+
     pub fn invalidate(&mut self, k: u16) {
         let key = K::probe(k);
         match self {
